@@ -13,10 +13,10 @@ def describe_exc(e: BaseException) -> dict:
     return {"raised": type(e).__name__, "message": str(e)[:300]}
 
 
-def compile_result(text: str, compiler=None) -> dict:
+def compile_result(text: str, file_name=None, compiler=None) -> dict:
     try:
         with StepBudget(BUDGET):
-            c = compile_text(text, compiler=compiler)
+            c = compile_text(text, compiler=compiler) if file_name is None else compile_text(text, file_name, compiler=compiler)
     except BudgetExceeded:
         return {"raised": "BUDGET"}
     except Exception as e:  # noqa
